@@ -114,3 +114,7 @@ Definition ar_process (epoch : option Z) (x : bytes) : outcome (bytes * bool) :=
     | Ok (out, m) => Ok (ar_magic ++ out, m)
     | e => e
     end.
+
+(* does Ar::process get as far as io.open_output()?  (after the global magic was read and accepted) *)
+Definition ar_opens_output (x : bytes) : bool :=
+  negb (length x <? length ar_magic)%nat && bytes_eqb (firstn (length ar_magic) x) ar_magic.
